@@ -181,13 +181,3 @@ pub fn sysv_complete<const NB: usize, const NS: usize>(class: Class, absent_quer
     }
 }
 
-#[kani::proof]
-#[kani::unwind(8)]
-pub fn complete_elf32_nb1_n2_present() {
-    sysv_complete::<1, 2>(Class::ELF32, false);
-}
-#[kani::proof]
-#[kani::unwind(8)]
-pub fn complete_elf32_nb1_n2_absent() {
-    sysv_complete::<1, 2>(Class::ELF32, true);
-}
